@@ -30,6 +30,14 @@ func c05Script(p c05Proc) string {
 	if p.Ending == "throw-user-in-func" {
 		sb.WriteString("function boom() { throw new \\Exception(\"from function\"); }\n")
 	}
+	switch p.Ending {
+	case "throw-handler-closure":
+		sb.WriteString("set_exception_handler(function ($e) { echo \"[handler:\", $e->getMessage(), \"]\\n\"; });\n")
+	case "throw-handler-name":
+		sb.WriteString("function on_uncaught($e) { echo \"[handler:\", $e->getMessage(), \"]\\n\"; }\nset_exception_handler('on_uncaught');\n")
+	case "throw-handler-null":
+		sb.WriteString("set_exception_handler(null);\n")
+	}
 	if p.Ending == "parse-error" {
 		sb.WriteString("if (1 { echo 1; }\n")
 	}
@@ -37,8 +45,10 @@ func c05Script(p c05Proc) string {
 		fmt.Fprintf(&sb, "echo \"t%d\\n\";\n", i)
 	}
 	switch p.Ending {
-	case "throw-user":
+	case "throw-user", "throw-handler-closure", "throw-handler-name", "throw-handler-null":
 		sb.WriteString("throw new \\Exception(\"uncaught at top level\");\n")
+	case "throw-in-finally-chain":
+		sb.WriteString("function deep() { try { throw new \\Exception(\"from deep\"); } finally { echo \"fin-deep\\n\"; } }\ntry { deep(); } catch (\\LogicException $e) { echo \"wrong catch\\n\"; } finally { echo \"fin-top\\n\"; }\n")
 	case "throw-user-in-func":
 		sb.WriteString("boom();\n")
 	case "runtime-error":
